@@ -83,7 +83,21 @@ func keyIdentity(t schema.Type, k *aval.V) string {
 			x.F = "0"
 		}
 	})
+	if isCaseInsensitiveKey(t) {
+		// the corpus' custom typeref registers an equality that ignores case
+		c = aval.Str(strings.ToLower(c.Str()))
+	}
 	return fillDefaults(t, c).Canon()
+}
+
+// isCaseInsensitiveKey: the key type is the custom typeref of the corpus whose registered equality ignores case (v2; the
+// root generation treats it as an ordinary typeref, where == decides).
+func isCaseInsensitiveKey(t schema.Type) bool {
+	if t.Ref == nil || t.Ref.Name != schema.CaseInsensitiveTyperef {
+		return false
+	}
+	n := S.Lookup(*t.Ref)
+	return n.Kind == "typeref" && n.Custom
 }
 
 func genPatch(rt *rapid.T, g *aval.Gen, t schema.Type, avoid map[string]bool) *dyn.PatchM {
